@@ -54,7 +54,7 @@ RECURSIVE SumAreas(_, _, _)
 SumAreas(nrm, pcs, i) == IF i > Len(pcs) THEN 0 ELSE AbsV(AreaN(nrm, pcs[i].verts)) + SumAreas(nrm, pcs, i + 1)
 Mid2(u, v) == <<u[1] + v[1], u[2] + v[2], u[3] + v[3]>>                 \* mid point times 2
 InAll(poly, cell, x, m) == Height(poly, x, m) = 0 /\ InClosedPoly(poly, x, m) /\ InCellS(cell, x, m)
-PolyFamily == PlanarPoly(I.poly) /\ Convex3(I.poly) /\ \A c \in 1..Len(I.cells) : \A f \in 1..Len(I.cells[c]) :
+PolyFamily == PlanarPoly(I.poly) /\ Convex3(I.poly) /\ Covers(I.cells, I.poly) /\ \A c \in 1..Len(I.cells) : \A f \in 1..Len(I.cells[c]) :
                  ~(\A i \in 1..Len(I.cells[c][f]) : Height(I.poly, I.cells[c][f][i], 1) = 0)
 \* class split: some edge of some cell lies in the plane of the polygon (degenerate placement)
 EdgeInPlane == \E c \in 1..Len(I.cells) : \E f \in 1..Len(I.cells[c]) : \E i \in 1..Len(I.cells[c][f]) :
